@@ -82,7 +82,7 @@ add("C14", "model_checking",
     "DESIGN.md 3/C14")
 
 add("C07", "model_checking",
-    "explicit-state BFS over histories (18 events, depth 7 quick / 10 thorough) of the real Machine, deduplicated on the derived Debug of the whole Machine (so implementation-internal state keeps histories apart); at every distinct node each reset and each follow-up load is executed on a clone and compared with power-on values, an untouched twin and a fresh machine (lock-step)",
+    "explicit-state BFS over histories (18 events, depth 8 quick / 11 thorough) of the real Machine, deduplicated on the derived Debug of the whole Machine (so implementation-internal state keeps histories apart); at every distinct node each reset and each follow-up load is executed on a clone and compared with power-on values, an untouched twin and a fresh machine (lock-step)",
     "cpu_reset: registers/IR/sequencer/pending latches/bus latch/ALU latch/outputs/MICR/state = power-on, RAM/inputs/board/limits/step mode untouched, timer survives and UCR is cleared (Bus-value differentials), whole-Machine equality against a machine rebuilt from public setters for clean histories; master_reset: additionally inputs, timer and the board's outputs cleared, RAM and board inputs untouched; load: RAM = image + zeros, limits applied, load == master reset + image + limits as a whole Machine value; 7 follow-up programs (incl. one that enables every interrupt source and a NOSET program) run 300 edges in lock-step with a new machine; the cpu-side whole-machine comparison is made after every history; after the master reset of every history no external stimulus may raise the board's interrupt flags.",
     "Histories bounded by the depth; MISR and the UART send register are outside the statement and not compared.",
     "DESIGN.md 3/C07")
